@@ -377,6 +377,17 @@ class Sym:
         if isinstance(v, dict) and v.get("t") == "int":
             return [(st, (VAL, lit_int(v["v"])))]
         if isinstance(v, dict) and v.get("t") == "pretty":
+            pv = (v["v"] or "").strip()
+            # a named constant holding a plain string / byte-string literal is that literal
+            if re.match(r'^"([^"\\]|\\.)*"$', pv):
+                return [(st, (VAL, parse_const(pv, "str")))]
+            mb = re.match(r'^b"(([^"\\]|\\.)*)"$', pv)
+            if mb:
+                try:
+                    import ast
+                    return [(st, (VAL, ("lit", "bytes", ast.literal_eval('b"%s"' % mb.group(1)))))]
+                except Exception:
+                    pass
             return [(st, (VAL, ("const", n["path"], v["v"])))]
         return [(st, (VAL, ("const", n["path"], None)))]
 
@@ -641,6 +652,25 @@ class Sym:
                     nxt += self.pmatch(f["pat"], mk_field(t, f["name"]), s3)
                 cur = nxt
             return cur
+        if k == "Slice" and pat.get("slice") is not None and not pat.get("suffix") and pat.get("prefix") \
+                and pat["slice"].get("k") == "Wild" and all(q.get("k") == "Const" for q in pat["prefix"]):
+            # `[b'#', ..]` / `[b' ', b' ', b' ', b' ', ..]`: the byte slice starts with these bytes
+            bs = []
+            for q in pat["prefix"]:
+                c_ = parse_const(q["v"], q.get("ty", ""))
+                if c_[0] == "lit" and c_[1] == "int" and 0 <= c_[2] < 256:
+                    bs.append(c_[2])
+                else:
+                    raise Undecidable(pat, "slice pattern element outside the fragment language: %s" % q.get("v"))
+            atom = ("bool", ("call", "core::slice::starts_with", (t, ("lit", "bytes", bytes(bs)))))
+            out = []
+            s1 = st.with_cond(atom, True)
+            if s1 is not None:
+                out.append((s1, True))
+            s2 = st.with_cond(atom, False)
+            if s2 is not None:
+                out.append((s2, False))
+            return out
         if k == "Const":
             lit = parse_const(pat["v"], pat.get("ty", ""))
             atom = ("eq", t, lit)
